@@ -345,4 +345,56 @@ theorem C02_stop_idempotent (rec : Rec) (u : Nat) (close : Bool) (wt : Waiter) (
   erw [if_pos hst]
   rfl
 
+/-! ### on-demand watchers: only a socket event starts them -/
+
+/-- **an on-demand watcher is not started by a start request, a check or a restart**: while no socket
+    event is being handled (`Arbiter.socket_event` false) `_start` returns at once — no hook, no
+    status change, no spawn -/
+theorem C02_on_demand_start_waits (rec : Rec) (u : Nat) (wt : Waiter) (s : State)
+    (hod : (getW u s).1.onDemand = true) (hse : s.a.socketEvent = false) :
+    startW rec u wt s = deliver rec wt .unit s := by
+  unfold startW
+  simp only [bind]
+  have hp : (pendingSocketEvent u s).1 = true := by
+    simp only [pendingSocketEvent, bind, pure, getA]
+    simp only [hod, Bool.true_and, Bool.not_eq_eq_eq_not, Bool.not_true]
+    exact hse
+  erw [if_pos hp]
+  rfl
+
+/-- **… and its dead workers are not replaced until the next connection**: `spawn_processes` spawns
+    nothing while the watcher waits for its socket event; it marks the watcher stopped only when no
+    worker is left (as repaired) -/
+theorem C02_on_demand_respawn_waits (rec : Rec) (u : Nat) (wt : Waiter) (s : State)
+    (hod : (getW u s).1.onDemand = true) (hse : s.a.socketEvent = false) :
+    spawnProcesses rec u wt s =
+      deliver rec wt .unit (if (getW u s).1.pids.isEmpty then (setStatus u .stopped s).2 else s) := by
+  unfold spawnProcesses
+  simp only [bind]
+  have hp : (pendingSocketEvent u s).1 = true := by
+    simp only [pendingSocketEvent, bind, pure, getA]
+    simp only [hod, Bool.true_and, Bool.not_eq_eq_eq_not, Bool.not_true]
+    exact hse
+  erw [if_pos hp]
+  have hs0 : (pendingSocketEvent u s).2 = s := rfl
+  simp only [hs0]
+  have hs1 : (getW u s).2 = s := rfl
+  simp only [hs1]
+  by_cases he : (getW u s).1.pids.isEmpty = true
+  · rw [if_pos he]; erw [if_pos he]
+  · rw [if_neg he]; erw [if_neg he]
+
+/-- **without a waiting connection the periodic check starts nobody** — the tail of `manage_watchers`
+    only acts when an on-demand watcher is stopped *and* `select()` reports a managed socket readable -/
+theorem C02_no_socket_event_no_start (rec : Rec) (need : Bool) (wt : Waiter) (s : State)
+    (h : need = false ∨ s.a.sockReady = false) :
+    manageWatchersTail rec need wt s = deliver rec wt .unit s := by
+  unfold manageWatchersTail
+  simp only [bind, getA]
+  have hc : ¬ ((need && s.a.sockReady) = true) := by
+    cases h with
+    | inl h => simp [h]
+    | inr h => simp [h]
+  erw [if_neg hc]
+
 end Circus.Core
